@@ -47,17 +47,18 @@ type Out struct {
 }
 
 type Rec struct {
-	ID     int      `json:"id"`
-	Seed   int64    `json:"seed"`
-	Res    int      `json:"res"`
-	Bars   []BarD   `json:"bars"`
-	First  int      `json:"first"`  // which export is called first on the song: 0 = ToSMF0, 1 = ToSMF1
-	PreRes int      `json:"preres"` // > 0: the song was exported once before at this OTHER resolution, then Song.Ticks was set to Res (a song is still a song after an export)
-	Names  int      `json:"names"`  // number of Song.TrackNames set
-	Smf0   Out      `json:"smf0"`
-	Smf1   Out      `json:"smf1"`
-	Panic  string   `json:"panic"`
-	Feat   []string `json:"feat"`
+	ID      int      `json:"id"`
+	Seed    int64    `json:"seed"`
+	Res     int      `json:"res"`
+	Bars    []BarD   `json:"bars"`
+	First   int      `json:"first"`   // which export is called first on the song: 0 = ToSMF0, 1 = ToSMF1
+	PreBars int      `json:"prebars"` // > 0: the song was exported once when it had only its first PreBars bars, the other bars were added afterwards (a song may grow after an export)
+	PreRes  int      `json:"preres"`  // > 0: the song was exported once before at this OTHER resolution, then Song.Ticks was set to Res (a song is still a song after an export)
+	Names   int      `json:"names"`   // number of Song.TrackNames set
+	Smf0    Out      `json:"smf0"`
+	Smf1    Out      `json:"smf1"`
+	Panic   string   `json:"panic"`
+	Feat    []string `json:"feat"`
 }
 
 // ---- driving the real library ----------------------------------------------------------------------------
@@ -95,7 +96,14 @@ func build(rec *Rec) *sequencer.Song {
 	for i := 0; i < rec.Names; i++ {
 		s.TrackNames = append(s.TrackNames, fmt.Sprintf("n%d", i))
 	}
-	for _, b := range rec.Bars {
+	for i, b := range rec.Bars {
+		if rec.PreBars > 0 && i == rec.PreBars {
+			if rec.First == 0 {
+				s.ToSMF1()
+			} else {
+				s.ToSMF0()
+			}
+		}
 		var bar sequencer.Bar
 		if !b.Implicit {
 			bar.TimeSig = [2]uint8{uint8(b.Num), uint8(b.Den)}
@@ -207,6 +215,11 @@ func genSong(r *rand.Rand, rec *Rec, big bool) {
 	}
 	cur := sig{4, 4}
 	rec.Bars = make([]BarD, nb)
+	rec.PreBars = 0
+	if nb >= 3 && r.Intn(4) == 0 {
+		rec.PreBars = 2 + r.Intn(nb-2)
+		feat["bars_added_after_an_export"] = true
+	}
 	lens := make([]int, nb)
 	total := 0
 	for i := 0; i < nb; i++ {
